@@ -1081,6 +1081,9 @@ def check_C17(ctx):
     bad = [r for r in rows if r[3] != "ok"]
     # argument immutability and model tie ride on the msg/dec suites
     mrows = parse_rows(E.run_suite(ctx, "msg", ["msg", ctx.seed, _n(ctx, 600, 10000)]))
+    for sname, gen_args, drv in fresh_suites(ctx, [("msg", ["msg", ctx.seed + 17, _n(ctx, 400, 8000), "casts.proto:"])]):
+        # generated types with time.Time / time.Duration casts in every shape (values in non-UTC locations)
+        mrows += parse_rows(E.run_suite(ctx, "msg_casts_fresh", gen_args, driver=drv))
     drows = parse_rows(E.run_suite(ctx, "decv", ["decv", ctx.seed, _n(ctx, 600, 10000)]))
     immut_bad = [r for r in mrows if r["suite"] == "msg" and r["flags"].get("immut") != "ok"]
     input_bad = [r for r in drows if r["suite"] == "dec" and "input-modified" in r["flags"]]
